@@ -1634,8 +1634,8 @@ def kinds_with(tag=None, seq=None, exclude=(), include=None):
             continue
         if any(t in k.tags for t in exclude):
             continue
-        if 'extra' in k.tags and tag != 'extra' and 'extra' not in (include or ()):
-            continue
+        if 'extra' in k.tags and tag is None and 'extra' not in (include or ()):
+            continue        # extra kinds only on request (include=('extra',)) or through one of their own tags
         out.append(k)
     return out
 
@@ -1835,3 +1835,41 @@ _trkind('ClockSyncFSM', [1, 1], [1, 1], lambda p, n, i, o: _lib('py4hw.logic.pro
 _trkind('Axi2ClkFSM', [1, 8, 1], [64, 1, 1], lambda p, n, i, o: _lib('py4hw.emulation.vitiswrapping', 'Axi2ClkFSM')(p, n, i[0], i[1], i[2], o[0], o[1], o[2]))
 _trkind('VitisKernelFSM', [1, 1, 1, 1], [1, 1, 1], lambda p, n, i, o: _lib('py4hw.emulation.vitiswrapping', 'VitisKernelFSM')(p, n, i[0], i[1], o[0], o[1], o[2], i[2], i[3]))
 _trkind('UARTSerializer', [1, 8, 1], [1, 1], lambda p, n, i, o: _lib('py4hw.logic.protocol.uart.serdes', 'UARTSerializer')(p, n, o[0], i[0], i[1], i[2], o[1]))
+
+
+class _IfaceIncBlock(py4hw.Logic):
+    """a user-written combinational primitive whose input arrives through an Interface (addInterfaceSink)"""
+
+    def __init__(self, parent, name, iface, r):
+        super().__init__(parent, name)
+        self.iface = self.addInterfaceSink('', iface)
+        self.r = self.addOut('r', r)
+
+    def propagate(self):
+        self.r.put(self.iface.data.get() + 1)
+
+
+class _OneWireInterface(py4hw.Interface):
+    """interface made of one existing source-to-sink wire"""
+
+    def __init__(self, parent, name, wire):
+        super().__init__(parent, name)
+        self.data = wire
+        self.sourceToSink.append(['data', wire])
+
+
+@register
+class IfaceInc(Kind):
+    name = 'IfaceInc'
+    tags = ('extra', 'simonly', 'userblock', 'ifaceport')
+    weight = 0.8
+
+    def plan(self, rng, pool):
+        a, w = pool.any(1, 40)
+        return {}, [a], [w]
+
+    def build(self, parent, nm, ins, outs, p):
+        return _IfaceIncBlock(parent, nm, _OneWireInterface(parent, nm + '_if', ins[0]), outs[0])
+
+    def outs(self, p, st, iv, iw, ow):
+        return [M(iv[0] + 1, ow[0])]
